@@ -120,6 +120,9 @@ def reply_sizes(ctx):
                         except Exception as e:  # noqa
                             ctx.violation("an authentic sealed reply is not accepted when its signature size differs from the request's", inp, canon_exc(e), "the stub")
                             return
+                        if not auth.unwrap_calls:
+                            ctx.violation("reply path: a sealed reply is returned without the security context having been asked to unwrap it", inp, "unwrap not called", "unwrap of stub ‖ padding")
+                            return
                         (h_, b_, t_, sig_, s_) = auth.unwrap_calls[-1]
                         problems = []
                         if len(b_) != len(plain):
